@@ -168,6 +168,7 @@ pub struct ExecResult {
     pub outcome: Outcome,
     pub record: verif::ExecRecord,
     pub choices: Vec<u32>,
+    pub devs: Vec<(u32, u32)>,
     pub sched_hash: u64,
     pub diverged: Option<usize>,
     pub max_runnable: usize,
@@ -223,6 +224,7 @@ impl Driver {
             outcome,
             record,
             choices: st.choices.clone(),
+            devs: st.devs.clone(),
             sched_hash: mix(st.hash, st.choices.len() as u64),
             diverged: st.diverged,
             max_runnable: st.max_runnable,
